@@ -27,7 +27,8 @@ from vkit import metagen, tlc, tracecheck
 NSH = 2
 NS = 1507          # deliberately not a multiple of 12, of the window or of the stride
 W = 1200           # 2 windows
-OPT_KEYS = ("ow", "chk", "cmp", "del")
+PART = 1399        # init_params(nsamples=PART): a partial conversion (option "part"), 2 windows as well, not a multiple of 12
+OPT_KEYS = ("ow", "chk", "cmp", "del", "part")
 STEM = "_spikeglx_ephysData_g0_t0.imec0"
 
 
@@ -116,7 +117,9 @@ class World:
             p = self.paths(s)
             chns = np.r_[np.flatnonzero(self.shank_of == s), nap] if self.kind == "NP24" else np.arange(nap + 1)
             want_ap = self.d[:, chns].reshape(-1)
+            part_ap = self.d[:PART, chns].reshape(-1)
             nlf = -(-NS // n2.RATIO)
+            nlfq = -(-PART // n2.RATIO)
             fs[f"dir{s}"] = "C" if p["dir"].exists() else "A"
             for key, cb in (("ap", False), ("apc", True)):
                 f = p[key]
@@ -124,7 +127,8 @@ class World:
                     fs[f"{key}{s}"] = "A"
                 else:
                     a = self._load(f, cb)
-                    fs[f"{key}{s}"] = "C" if a is not None and a.shape == want_ap.shape and np.array_equal(a, want_ap) else "P"
+                    fs[f"{key}{s}"] = ("C" if a is not None and a.shape == want_ap.shape and np.array_equal(a, want_ap) else
+                                       "Q" if a is not None and a.shape == part_ap.shape and np.array_equal(a, part_ap) else "P")
             for key, cb in (("lf", False), ("lfc", True)):
                 f = p[key]
                 if not f.exists():
@@ -133,7 +137,9 @@ class World:
                     a = self._load(f, cb)
                     ok = a is not None and a.size == nlf * len(chns) and np.array_equal(
                         a.reshape(nlf, len(chns))[:, -1], self.d[::n2.RATIO, -1])
-                    fs[f"{key}{s}"] = "C" if ok else "P"
+                    okq = a is not None and a.size == nlfq * len(chns) and np.array_equal(
+                        a.reshape(nlfq, len(chns))[:, -1], self.d[:PART:n2.RATIO, -1])
+                    fs[f"{key}{s}"] = "C" if ok else "Q" if okq else "P"
             for key in ("apm", "lfm"):
                 f = p[key]
                 if not f.exists():
@@ -296,7 +302,7 @@ def instrumented(world, conv, steps, fail_at):
                 pass
 
 
-NOOPTS = {"ow": False, "chk": False, "cmp": False, "del": False}
+NOOPTS = {"ow": False, "chk": False, "cmp": False, "del": False, "part": False}
 
 
 def one_process(world, o, fail_at, steps, conv=None):
@@ -309,7 +315,7 @@ def one_process(world, o, fail_at, steps, conv=None):
     n0 = len(steps)
     if not reuse:
         conv = neuropixel.NP2Converter(world.ap_file, post_check=o["chk"], compress=o["cmp"], delete_original=o["del"])
-        conv.init_params(nwindow=W)
+        conv.init_params(nwindow=W, nsamples=PART if o.get("part") else None)
     status = None
     fired = False
     with instrumented(world, conv, steps, fail_at):
@@ -419,7 +425,15 @@ def nstates(t):
 
 
 def all_opts():
-    return [dict(zip(OPT_KEYS, v)) for v in itertools.product([False, True], repeat=4)]
+    """the 16 vectors of (overwrite, post_check, compress, delete_original) for whole-recording conversions"""
+    return [dict(zip(OPT_KEYS, v + (False,))) for v in itertools.product([False, True], repeat=4)]
+
+
+def part_opts():
+    """partial conversions (init_params(nsamples=PART)): the vectors under which the original could disappear, and two others"""
+    o = lambda **k: dict(NOOPTS, part=True, **k)   # noqa: E731
+    return [o(chk=True, **{"del": True}), o(chk=True, cmp=True, **{"del": True}), o(ow=True, chk=True, **{"del": True}),
+            o(ow=True, chk=True, cmp=True, **{"del": True}), o(**{"del": True}), o(chk=True)]
 
 
 def plan(ctx):
@@ -449,6 +463,13 @@ def plan(ctx):
                 out.append((kind, form, [(o, fa), (dict(o, ow=True), None, True)]))
                 if not ctx.quick:
                     out.append((kind, form, [(o, fa), (dict(o, ow=False), None, True)]))
+        # partial conversions: single runs with every interruption point, then followed by a whole-recording run / preceded by one
+        for o in part_opts():
+            out.append((kind, form, [(o, "ALL" if (form == "bin" or not ctx.quick) else None)]))
+            out.append((kind, form, [(o, None), (rnd.choice(opts), None)]))
+            out.append((kind, form, [(o, None), (dict(rnd.choice(opts), ow=True), None)]))
+            out.append((kind, form, [(rnd.choice(opts), None), (dict(o, ow=True), None)]))
+            out.append((kind, form, [(dict(o, ow=False), None), (dict(o, ow=True), None, True)]))
         # a converter that first declined ("output exists", status 0) and is then asked to force the re-run: an earlier
         # complete or interrupted run by another object left output; process() ; process(overwrite=True) on one object
         for o1 in rnd.sample(opts, 2 if ctx.quick else 8):
